@@ -475,6 +475,44 @@ pub struct EvalState<'a> {
     // Used to check for circular variable references
     // Vec - likely to be few vars, and need stack behaviour
     checked_vars: Vec<String>,
+    // Nesting depth of this expression, including that of the expressions
+    // whose variables led here
+    depth: usize,
+}
+
+/// The most deeply nested an expression may be: open parentheses, function
+/// calls and unary minus signs, plus one for every variable whose value is
+/// being evaluated on the way. The parser is recursive, so without a limit
+/// a long enough run of '(' or '-' overflows the stack.
+const MAX_EXPR_DEPTH: usize = 100;
+
+/// Upper bound, from the tokens alone, on how deeply the recursive descent
+/// over `tokens` nests: every '(' stays open up to its ')', together with the
+/// minus signs written directly in front of it, and a run of minus signs
+/// stays open up to the operand which follows it.
+fn nesting_depth(tokens: &[Token]) -> usize {
+    let mut groups: Vec<usize> = Vec::new();
+    let mut open = 0;
+    let mut run = 0;
+    let mut depth = 0;
+    for token in tokens {
+        match token {
+            Token::Sub => run += 1,
+            Token::OpenParen => {
+                groups.push(run + 1);
+                open += run + 1;
+                run = 0;
+            }
+            Token::CloseParen => {
+                open -= groups.pop().unwrap_or(0);
+                run = 0;
+            }
+            Token::Number(_) | Token::String(_) | Token::Var(_) | Token::ElementRef(_) => run = 0,
+            _ => {}
+        }
+        depth = depth.max(open + run);
+    }
+    depth
 }
 
 impl<'a> EvalState<'a> {
@@ -488,7 +526,27 @@ impl<'a> EvalState<'a> {
             index: 0,
             context,
             checked_vars: Vec::from(checked_vars),
+            depth: 0,
         }
+    }
+
+    /// As `new`, for tokens evaluated at nesting depth `depth`: zero, or that of
+    /// the expression containing the variable they are the value of.
+    fn nested(
+        tokens: impl IntoIterator<Item = Token>,
+        context: &'a dyn ContextView,
+        checked_vars: &[String],
+        depth: usize,
+    ) -> Result<Self> {
+        let mut state = Self::new(tokens, context, checked_vars);
+        state.depth = depth + nesting_depth(&state.tokens);
+        if state.depth > MAX_EXPR_DEPTH {
+            return Err(SvgdxError::DepthLimitExceeded(
+                state.depth as u32,
+                MAX_EXPR_DEPTH as u32,
+            ));
+        }
+        Ok(state)
     }
 
     /// Peek the next token without advancing
@@ -537,7 +595,8 @@ impl<'a> EvalState<'a> {
             if tokens.is_empty() {
                 Ok(ExprValue::List(Vec::new()))
             } else {
-                let mut es = EvalState::new(tokens, self.context, &self.checked_vars);
+                let mut es =
+                    EvalState::nested(tokens, self.context, &self.checked_vars, self.depth + 1)?;
                 let e = expr_list(&mut es)?;
                 if es.peek().is_none() {
                     Ok(e)
@@ -603,7 +662,7 @@ fn evaluate_inner(
     context: &impl ContextView,
     checked_vars: &[String],
 ) -> Result<ExprValue> {
-    let mut eval_state = EvalState::new(tokens.clone(), context, checked_vars);
+    let mut eval_state = EvalState::nested(tokens.clone(), context, checked_vars, 0)?;
     let e = expr_list(&mut eval_state)?;
     if eval_state.peek().is_none() {
         Ok(e)
